@@ -216,6 +216,42 @@ func (k *keyProv) classifyCall(call *ssa.Call, idx int, env map[ssa.Value]kclass
 			return kDerived
 		}
 	}
+	// a positioning primitive kept as a bound method value in a field (advance: cursor.Next): every value the field
+	// is ever given is such a primitive
+	if cal == nil && !cc.IsInvoke() {
+		if f, _ := loadedField(cc.Value); f != nil && len(k.stores[f.Origin()]) > 0 {
+			all := true
+			for _, st := range k.stores[f.Origin()] {
+				v := st.Val
+				if ct, isCT := v.(*ssa.ChangeType); isCT {
+					v = ct.X
+				}
+				mc, isMC := v.(*ssa.MakeClosure)
+				if !isMC {
+					all = false
+					break
+				}
+				bf, _ := mc.Fn.(*ssa.Function)
+				obj, _ := func() (*types.Func, bool) {
+					if bf == nil || !strings.HasSuffix(bf.Name(), "$bound") {
+						return nil, false
+					}
+					o, ok := bf.Object().(*types.Func)
+					return o, ok
+				}()
+				if obj == nil || !k.cursorFn[obj] {
+					all = false
+					break
+				}
+			}
+			if all {
+				if idx == 0 {
+					return kRaw | kNil
+				}
+				return kUnknown
+			}
+		}
+	}
 	// repository callee(s): union over their returns, parameters bound to the actual classes
 	var r kclass
 	targets := k.cg.CalleesOf(cc)
@@ -747,6 +783,56 @@ func ruleCursorDirection(c *Ctx, cts []cursorType, rule, paramRule string) {
 		}
 		return ""
 	}
+	// a positioning primitive kept as a bound method value in a field (advance: cursor.Next), filled by the
+	// constructor: a call through that field is a call of the primitive
+	fieldPrims := func(ctor *ssa.Function) map[*types.Var]*types.Func {
+		out := map[*types.Var]*types.Func{}
+		for _, b := range ctor.Blocks {
+			for _, in := range b.Instrs {
+				st, isSt := in.(*ssa.Store)
+				if !isSt {
+					continue
+				}
+				f, _ := fieldOfAddr(st.Addr)
+				if f == nil {
+					continue
+				}
+				v := st.Val
+				if ct, isCT := v.(*ssa.ChangeType); isCT {
+					v = ct.X
+				}
+				mc, isMC := v.(*ssa.MakeClosure)
+				if !isMC {
+					continue
+				}
+				bf, _ := mc.Fn.(*ssa.Function)
+				if bf == nil || !strings.HasSuffix(bf.Name(), "$bound") {
+					continue
+				}
+				if obj, isF := bf.Object().(*types.Func); isF {
+					if prev0, dup := out[f.Origin()]; dup && prev0 != obj {
+						out[f.Origin()] = nil // two different primitives on different paths: not a constant of the type
+					} else {
+						out[f.Origin()] = obj
+					}
+				}
+			}
+		}
+		return out
+	}
+	callsPrim := func(ci ssa.Instruction, prims map[*types.Var]*types.Func, prim *types.Func) bool {
+		if isCallTo(ci, prim) {
+			return true
+		}
+		call, isCall := ci.(ssa.CallInstruction)
+		if !isCall || call.Common().IsInvoke() || call.Common().StaticCallee() != nil {
+			return false
+		}
+		if f, _ := loadedField(call.Common().Value); f != nil {
+			return prims[f.Origin()] == prim && prim != nil
+		}
+		return false
+	}
 	// (1) per cursor type: constructor primitive and Next primitive agree
 	decidedDir := map[*ssa.Function]string{}
 	dirOf2 := func(ctor *ssa.Function) string {
@@ -791,6 +877,7 @@ func ruleCursorDirection(c *Ctx, cts []cursorType, rule, paramRule string) {
 			}
 		}
 		construct := "boltz." + built.Obj().Name() + " built by " + fn.Name()
+		prims := fieldPrims(fn)
 		var flagOracle Oracle
 		if d == "both" {
 			// the direction kept as a flag in a field the constructor fills with a constant: the shared code is
@@ -867,7 +954,7 @@ func ruleCursorDirection(c *Ctx, cts []cursorType, rule, paramRule string) {
 				}
 			}
 			if seekFn != nil {
-				bad := decideSeek(c, seekFn, nextFn, flagOracle, d == "forward")
+				bad := decideSeek(c, seekFn, nextFn, flagOracle, d == "forward", nil)
 				c.Check(bad == "", rule, construct, p.Pos(fn.Pos()), d+" cursor (direction kept as a flag): constructor, Next and Seek decided under the flag's constant", bad)
 			} else {
 				c.OK(rule, construct, p.Pos(fn.Pos()), d+" cursor (direction kept as a flag): constructor and Next decided under the flag's constant")
@@ -880,10 +967,10 @@ func ruleCursorDirection(c *Ctx, cts []cursorType, rule, paramRule string) {
 		}
 		usesNext, usesPrev := false, false
 		for _, call := range callsIn(nextFn) {
-			if isCallTo(call, next) {
+			if callsPrim(call, prims, next) {
 				usesNext = true
 			}
-			if isCallTo(call, prev) {
+			if callsPrim(call, prims, prev) {
 				usesPrev = true
 			}
 		}
@@ -893,7 +980,7 @@ func ruleCursorDirection(c *Ctx, cts []cursorType, rule, paramRule string) {
 		if ok && d == "reverse" && seekFn != nil {
 			back := false
 			for _, call := range callsIn(seekFn) {
-				if isCallTo(call, prev) {
+				if callsPrim(call, prims, prev) {
 					back = true
 				}
 				if cal, _ := calleeOf(call.Common()); cal != nil && cal == nextFn.Object() {
@@ -908,7 +995,7 @@ func ruleCursorDirection(c *Ctx, cts []cursorType, rule, paramRule string) {
 				// last element is the answer
 				sfi := ComputeFacts(seekFn)
 				for _, call := range callsIn(seekFn) {
-					isBack := isCallTo(call, prev)
+					isBack := callsPrim(call, prims, prev)
 					if cal, _ := calleeOf(call.Common()); cal != nil && cal == nextFn.Object() {
 						isBack = true
 					}
@@ -931,7 +1018,7 @@ func ruleCursorDirection(c *Ctx, cts []cursorType, rule, paramRule string) {
 			// ... decided: the reverse Seek is run for the three ways bbolt's Seek can answer — past the last
 			// key (nil), on a later key, exactly on the target — and must step back in the first two and only
 			// there (whatever test it uses: bytes.Equal, bytes.Compare, a nil test)
-			if bad := decideReverseSeek(c, seekFn, nextFn); bad != "" {
+			if bad := decideSeek(c, seekFn, nextFn, nil, false, func(ci ssa.CallInstruction, prim *types.Func) bool { return callsPrim(ci, prims, prim) }); bad != "" {
 				ok, why = false, bad
 			}
 		}
@@ -946,7 +1033,7 @@ func ruleCursorDirection(c *Ctx, cts []cursorType, rule, paramRule string) {
 			}
 			if viaNext && !noPathAvoiding(nextFn, func(in ssa.Instruction) bool {
 				call, isCall := in.(ssa.CallInstruction)
-				return isCall && isCallTo(call, prev)
+				return isCall && callsPrim(call, prims, prev)
 			}, nil) {
 				ok = false
 				why = "reverse Seek steps back through Next(), but Next() does not move the bolt cursor on every path (it looks at the state remembered from before the Seek): a Seek on an exhausted cursor stays invalid although an element <= target exists"
@@ -954,13 +1041,13 @@ func ruleCursorDirection(c *Ctx, cts []cursorType, rule, paramRule string) {
 		}
 		if ok && d == "forward" && seekFn != nil {
 			for _, call := range callsIn(seekFn) {
-				if isCallTo(call, prev) {
+				if callsPrim(call, prims, prev) {
 					ok = false
 					why = "forward Seek steps backwards"
 				}
 			}
 			if ok {
-				if bad := decideSeek(c, seekFn, nextFn, nil, true); bad != "" {
+				if bad := decideSeek(c, seekFn, nextFn, nil, true, func(ci ssa.CallInstruction, prim *types.Func) bool { return callsPrim(ci, prims, prim) }); bad != "" {
 					ok, why = false, bad
 				}
 			}
@@ -1561,14 +1648,17 @@ func ruleC14DirCompare(c *Ctx) {
 // in which it does the wrong thing ("" when all are right or when the function cannot be evaluated — then the
 // structural checks above stand alone).
 func decideReverseSeek(c *Ctx, seekFn, nextFn *ssa.Function) string {
-	return decideSeek(c, seekFn, nextFn, nil, false)
+	return decideSeek(c, seekFn, nextFn, nil, false, nil)
 }
 
 // decideSeek runs a cursor's Seek for the three ways bbolt's Seek can answer.  A reverse cursor steps back in the
 // first two and only there; a forward cursor does not move again at all (bbolt's Seek already stands on the first
 // key >= target, or past the end).  extra answers loads the caller knows (a direction flag kept in a field).
-func decideSeek(c *Ctx, seekFn, nextFn *ssa.Function, extra Oracle, forward bool) string {
+func decideSeek(c *Ctx, seekFn, nextFn *ssa.Function, extra Oracle, forward bool, callsPrim func(ssa.CallInstruction, *types.Func) bool) string {
 	p := c.P
+	if callsPrim == nil {
+		callsPrim = func(ci ssa.CallInstruction, prim *types.Func) bool { return isCallTo(ci, prim) }
+	}
 	bnext := p.ExtMethod(bboltPath, "Cursor", "Next")
 	bfirst := p.ExtMethod(bboltPath, "Cursor", "First")
 	bseek := p.ExtMethod(bboltPath, "Cursor", "Seek")
@@ -1641,10 +1731,10 @@ func decideSeek(c *Ctx, seekFn, nextFn *ssa.Function, extra Oracle, forward bool
 			return AV{}, false
 		}
 		evs, err := DecideCalls(seekFn, oracle, func(ci ssa.CallInstruction) bool {
-			if isCallTo(ci, prev) || isCallTo(ci, last) {
+			if callsPrim(ci, prev) || callsPrim(ci, last) {
 				return true
 			}
-			if forward && (isCallTo(ci, bnext) || isCallTo(ci, bfirst)) {
+			if forward && (callsPrim(ci, bnext) || callsPrim(ci, bfirst)) {
 				return true
 			}
 			cal, _ := calleeOf(ci.Common())
